@@ -367,15 +367,13 @@ func (db *RedisPermanent) mergeTempDatabaseFromLeveldb(ctx context.Context, temp
 
 			return nil
 		},
-		func(ctx context.Context, _ uint64) error {
-			if err := db.mergeBlockMapTempDatabaseFromLeveldb(ctx, temp); err != nil {
-				return errors.Wrap(err, "merge blockmap")
-			}
-
-			return nil
-		},
 	); err != nil {
 		return e.Wrap(err)
+	}
+
+	// NOTE blockmap is the last; block is visible by it's blockmap
+	if err := db.mergeBlockMapTempDatabaseFromLeveldb(ctx, temp); err != nil {
+		return e.WithMessage(err, "merge blockmap")
 	}
 
 	_ = db.updateLast(
